@@ -413,7 +413,9 @@ class GeoFamily(Family):
         self.tol = {k: 1e-5 for k in self.queries}
         self.mutators = {"set_node_weight_type": self.m_nwt,
                          "adjacency_dense": self.m_adj,
-                         "node_weights": self.m_weights}
+                         "node_weights": self.m_weights,
+                         "rewire_geomodel": self.m_geomodel,
+                         "set_random_links_by_distance": self.m_bydist}
 
     def init_model(self, case):
         g = case["g"]
@@ -448,6 +450,36 @@ class GeoFamily(Family):
         w = (list(arg) * m["n"])[:m["n"]]
         o.node_weights = w
         m["w"] = w
+
+    def m_geomodel(self, o, m, arg):
+        """randomly_rewire_geomodel_I/II/III with a tolerance that admits
+        every structurally possible swap (termination: C17's precondition,
+        and the reverse of a swap is always admissible again); afterwards
+        the model adopts the object's adjacency, as for randomly_rewire."""
+        from props.c17 import swap_needs, eligible_count
+        if m["directed"]:
+            raise Stop()
+        model = ("I", "II", "III")[int(arg[0]) % 3]
+        D = np.array(o.grid.distance(), dtype=float)
+        A = m["A"]
+        # the kernel draws pairs of links in the orientation of the embedded
+        # graph's edge list: the precondition is evaluated on exactly that
+        edges = [tuple(e) for e in o.graph.get_edgelist()]
+        if eligible_count(swap_needs(A, D, model, edges), 1e9) == 0:
+            raise Stop()
+        seed_library_rngs(arg[1], arg[2])
+        getattr(o, "randomly_rewire_geomodel_" + model)(
+            distance_matrix=D, iterations=1 + int(arg[0]) // 3 % 3,
+            inaccuracy=1e9)
+        m["A"] = np.asarray(o.adjacency).astype(int)
+
+    def m_bydist(self, o, m, arg):
+        if m["directed"]:
+            raise Stop()
+        seed_library_rngs(arg[1], arg[2])
+        o.set_random_links_by_distance(a=(-2.0, 0.0, 1.0)[int(arg[0]) % 3],
+                                       b=(-1.0, -0.25)[int(arg[0]) // 3 % 2])
+        m["A"] = np.asarray(o.adjacency).astype(int)
 
 
 # --------------------------------------------------------- ClimateNetwork
@@ -1302,16 +1334,23 @@ def _coords(n):
 
 
 @st.composite
-def geo_cases(draw):
-    n = draw(st.integers(3, 8))
-    directed = draw(st.integers(0, 3)) == 0
-    g = draw(G.graphs(n, n, directed))
+def geo_cases(draw, rewire=False):
+    n = draw(st.integers(5, 8) if rewire else st.integers(3, 8))
+    directed = draw(st.integers(0, 3)) == 0 and not rewire
+    g = draw(G.random_graph(n, n, False) if rewire
+             else G.graphs(n, n, directed))
     la, lo = _coords(n)
     nwts = st.sampled_from([None, "surface", "irrigation"])
+    rnd = st.tuples(st.integers(0, 17), st.integers(0, 2 ** 31 - 1),
+                    st.integers(0, 2 ** 31 - 1)).map(list)
     margs = {"set_node_weight_type": nwts,
              "adjacency_dense": _graph_arg(n, directed),
              "node_weights": st.lists(st.integers(1, 12).map(
-                 lambda k: k / 4.0), min_size=3, max_size=8)}
+                 lambda k: k / 4.0), min_size=3, max_size=8),
+             "rewire_geomodel": rnd, "set_random_links_by_distance": rnd}
+    if rewire:      # histories of the randomising mutators only
+        margs = {k: margs[k] for k in ("rewire_geomodel", "rewire_geomodel",
+                                       "set_random_links_by_distance")}
     return {"family": "GeoNetwork", "g": g, "lat": draw(la),
             "lon": draw(lo), "nwt": draw(nwts),
             "ops": draw(ops_strategy("GeoNetwork", margs))}
@@ -1530,6 +1569,7 @@ SUBCHECKS = [
     _sub("visibility", lambda: net_cases("VisibilityGraph"), (2, 60),
          (4, 800)),
     _sub("geo", geo_cases, (3, 100), (8, 1000)),
+    _sub("geo_rewire", lambda: geo_cases(rewire=True), (3, 80), (8, 800)),
     _sub("climate", climate_cases, (4, 120), (8, 1200)),
     _sub("tsonis", tsonis_cases, (3, 60), (8, 600)),
     _sub("coupled_climate", coupled_climate_cases, (3, 60), (8, 600)),
